@@ -696,7 +696,7 @@ Definition embedded_step (a : astate) (q : request) : astate * response :=
 
 (* what the service puts in front of the embedded operation: the transport's size check, the
    key / value / batch limits, the lookup of the handle. None = the request is let through. *)
-Definition admit (L : limits) (ss : sstate) (q : request) : option err :=
+Definition gate (L : limits) (ss : sstate) (q : request) : option err :=
   if negb (fits L q) then Some EMsg else
   match q with
   | QGet k | QDelete k _ => if valid_key L k then None else Some EKey
@@ -802,7 +802,7 @@ Ltac same_abs := unfold abs; cbn; rewrite ?app_nil_r; reflexivity.
 Theorem simulation_step : forall L c tr ss q,
   s_eng ss = run c tr -> lost_log (run c tr) = false -> (MaxSeq <=? wal_next (s_eng ss)) = false ->
   q <> QCompact true ->
-  match admit L ss q with
+  match gate L ss q with
   | Some e => service_step L ss q = (ss, PErr e)
   | None =>
       s_eng (fst (service_step L ss q)) = run c (tr ++ eops L ss (SReq q)) /\
@@ -814,7 +814,7 @@ Proof.
   assert (Eng : s_eng (fst (service_step L ss q)) = run c (tr ++ eops L ss (SReq q))).
   { rewrite run_snoc, <- He. pose proof (sstep_eng L ss (SReq q)) as S. cbn [sstep] in S.
     destruct (service_step L ss q). exact S. }
-  unfold admit. unfold service_step in *. cbn [eops] in *.
+  unfold gate. unfold service_step in *. cbn [eops] in *.
   destruct (fits L q) eqn:F; cbn [negb] in *; [|reflexivity].
   destruct q as [k|k v s|k s|ops s|o|ro|h|h|h k|h k v|h k|h o| |f|]; cbn [handler embedded_step] in *.
   - (* Get *) destruct (valid_key L k); [|reflexivity]. split; [exact Eng|].
@@ -878,4 +878,132 @@ Proof.
     rewrite acked_snoc, <- He, (acked_commit _ _ M). unfold commit_w. cbn [buffer_ops fold_left].
     rewrite app_nil_r. reflexivity.
   - (* GetNodeInfo *) split; [exact Eng|]. unfold abs at 1. cbn [a_info]. destruct (s_info ss); same_abs.
+Qed.
+
+(* the simulation closes over programs: the initial states correspond, a flush of the engine
+   changes nothing the embedded specification can see, and every request keeps the
+   correspondence (simulation_step) *)
+Lemma abs_init : forall c p, abs c [] (sinit c p) = mkAS [] [] 0 p.
+Proof. reflexivity. Qed.
+
+Lemma simulation_flush : forall c tr ss,
+  s_eng ss = run c tr ->
+  s_eng (fst (sstep code_limits ss SFlush)) = run c (tr ++ [OFlush]) /\
+  abs c (tr ++ [OFlush]) (fst (sstep code_limits ss SFlush)) = abs c tr ss.
+Proof.
+  intros c tr ss He. cbn [sstep fst set_eng s_eng]. rewrite run_snoc, <- He. split; [reflexivity|].
+  unfold abs. cbn [s_reg s_next s_info]. rewrite acked_snoc. cbn [acked ack1]. rewrite app_nil_r. reflexivity.
+Qed.
+
+Lemma srun_app_fst : forall L a b ss, fst (srun L ss (a ++ b)) = fst (srun L (fst (srun L ss a)) b).
+Proof.
+  intros L a. induction a as [|o r IH]; intros b ss; [reflexivity|].
+  cbn [app]. rewrite !srun_cons. apply IH.
+Qed.
+
+Lemma etrace_app : forall L a b ss,
+  etrace L ss (a ++ b) = etrace L ss a ++ etrace L (fst (srun L ss a)) b.
+Proof.
+  intros L a. induction a as [|o r IH]; intros b ss; [reflexivity|].
+  cbn [app etrace]. rewrite srun_cons, IH, app_assoc. reflexivity.
+Qed.
+
+(* C19_simulation for the states a service reaches: after any program of requests and flushes *)
+Theorem simulation : forall L c p prog q,
+  let ss := fst (srun L (sinit c p) prog) in
+  (MaxSeq <=? wal_next (s_eng ss)) = false -> q <> QCompact true ->
+  match gate L ss q with
+  | Some e => service_step L ss q = (ss, PErr e)
+  | None =>
+      embedded_step (abs c (etrace L (sinit c p) prog) ss) q =
+        (abs c (etrace L (sinit c p) (prog ++ [SReq q])) (fst (srun L (sinit c p) (prog ++ [SReq q]))),
+         snd (service_step L ss q))
+  end.
+Proof.
+  intros L c p prog q ss M Hq.
+  pose proof (simulation_step L c (etrace L (sinit c p) prog) ss q (srun_eng_init L c p prog)
+                (service_log_kept L c p prog) M Hq) as S.
+  destruct (gate L ss q); [exact S|]. destruct S as (_ & S). rewrite S.
+  rewrite etrace_app, srun_app_fst. fold ss. cbn [etrace]. rewrite app_nil_r.
+  rewrite srun_cons. cbn [srun sstep fst]. destruct (service_step L ss q). reflexivity.
+Qed.
+
+(* non-vacuity: a program through all layers with a transaction; the embedded specification run
+   on the abstract state gives the service's answers *)
+Example simulation_ex :
+  let prog := [SReq (QPut [97] [1] false); SReq (QPut [98] [] true); SFlush; SReq (QDelete [97] false);
+               SReq (QBatch [mkBw 0 [99] [3]; mkBw 1 [98] []; mkBw 0 [99] [4]] false);
+               SReq (QBegin false); SReq (QTxPut (HId 1) [97] [5])] in
+  let ss := fst (srun L0 (sinit (mkCfg 40 10) None) prog) in
+  let a := abs (mkCfg 40 10) (etrace L0 (sinit (mkCfg 40 10) None) prog) ss in
+  a_hist a = [WPut [97] [1]; WPut [98] []; WDel [97]; WBatch [([98], None); ([99], Some [4])]] /\
+  map (fun q => snd (embedded_step a q)) [QGet [99]; QTxGet (HId 1) [97]; QGet [97]; QTxScan (HId 1) (mkScan [] [] [] [] 0)]
+  = map (fun q => snd (service_step L0 ss q)) [QGet [99]; QTxGet (HId 1) [97]; QGet [97]; QTxScan (HId 1) (mkScan [] [] [] [] 0)] /\
+  map (fun q => snd (service_step L0 ss q)) [QGet [99]; QTxGet (HId 1) [97]; QGet [97]; QTxScan (HId 1) (mkScan [] [] [] [] 0)]
+  = [PValue (Some [4]); PValue (Some [5]); PValue None; PRows [([97], [5]); ([99], [4])]].
+Proof. vm_compute. repeat split; reflexivity. Qed.
+
+(* an empty value is a value: through Put, BatchWrite and TxPut it reads back as found-and-empty
+   from Get, TxGet, Scan and TxScan, before and after a flush *)
+Example empty_value_ex :
+  let prog := [SReq (QPut [1] [] false); SReq (QBatch [mkBw 0 [2] []] false); SReq (QBegin false);
+               SReq (QTxPut (HId 1) [3] []); SReq (QTxGet (HId 1) [3]); SReq (QTxScan (HId 1) (mkScan [] [] [] [] 0));
+               SReq (QCommit (HId 1)); SFlush; SReq (QGet [1]); SReq (QGet [2]); SReq (QGet [3]);
+               SReq (QScan (mkScan [] [] [] [] 0))] in
+  snd (srun L0 ss0 prog) =
+  [POk; POk; PBegun 1; POk; PValue (Some []); PRows [([1], []); ([2], []); ([3], [])]; POk;
+   PValue (Some []); PValue (Some []); PValue (Some []); PRows [([1], []); ([2], []); ([3], [])]].
+Proof. vm_compute. reflexivity. Qed.
+
+(* ------------------------------------------------------------------------------------ *)
+(* Part F: where the service deviates from the embedded API                               *)
+(* ------------------------------------------------------------------------------------ *)
+
+(* F1. Compact(force) commits a dummy write: afterwards the database holds the key
+   "__compact_marker__" that no client wrote. The embedded maintenance operations never change
+   the data, so the simulation fails for this request. *)
+Theorem compact_force_refuted :
+  let ss1 := fst (service_step code_limits ss0 (QCompact true)) in
+  gate code_limits ss0 (QCompact true) = None /\
+  snd (service_step code_limits ss0 (QCompact true)) = POk /\
+  snd (service_step code_limits ss1 (QScan (mkScan [] [] [] [] 0))) = PRows [(marker_key, marker_val)] /\
+  snd (service_step code_limits ss1 (QGet marker_key)) = PValue (Some marker_val) /\
+  embedded_step (abs (mkCfg 1000 10) [] ss0) (QCompact true) = (abs (mkCfg 1000 10) [] ss0, POk) /\
+  abs (mkCfg 1000 10) (eops code_limits ss0 (SReq (QCompact true))) ss1 <> abs (mkCfg 1000 10) [] ss0.
+Proof. vm_compute. repeat split; try reflexivity. discriminate. Qed.
+
+(* F2. The transport's receive limit lies below the value limit: a Put whose value is within
+   the documented limit never reaches the service. *)
+Lemma f_len_ge : forall n, n <= f_len n.
+Proof. intros n. unfold f_len. destruct (n =? 0) eqn:E; [apply N.eqb_eq in E|]; lia. Qed.
+
+Lemma transport_gap : forall L ss k v s,
+  max_msg L < len v -> len v <= max_val L -> valid_key L k = true ->
+  within_limits L (QPut k v s) = true /\ service_step L ss (QPut k v s) = (ss, PErr EMsg).
+Proof.
+  intros L ss k v s Hm Hv Hk. split.
+  - cbn [within_limits]. rewrite Hk. apply valid_val_spec in Hv. rewrite Hv. reflexivity.
+  - unfold service_step, fits. cbn [req_size].
+    assert (G : (f_bytes k + f_bytes v + f_bool s <=? max_msg L) = false).
+    { apply N.leb_gt. unfold f_bytes at 2. pose proof (f_len_ge (len v)). lia. }
+    rewrite G. reflexivity.
+Qed.
+
+Lemma len_repeat : forall (x : N) n, len (repeat x n) = N.of_nat n.
+Proof. intros. unfold len. rewrite repeat_length. reflexivity. Qed.
+
+Theorem transport_refuted : exists k v,
+  within_limits code_limits (QPut k v false) = true /\
+  (forall ss, service_step code_limits ss (QPut k v false) = (ss, PErr EMsg)) /\
+  (forall a, embedded_step a (QPut k v false) = (a_write a [WPut k v], POk)).
+Proof.
+  exists [107]. remember (N.to_nat (max_msg code_limits + 1)) as n eqn:En.
+  exists (repeat 0 n).
+  assert (Hl : len (repeat 0 n) = max_msg code_limits + 1) by (rewrite len_repeat, En; apply N2Nat.id).
+  assert (A : max_msg code_limits < len (repeat 0 n)) by (rewrite Hl; lia).
+  assert (B : len (repeat 0 n) <= max_val code_limits) by (rewrite Hl; apply N.leb_le; vm_compute; reflexivity).
+  assert (C : valid_key code_limits [107] = true) by (vm_compute; reflexivity).
+  split; [apply (transport_gap code_limits ss0 _ _ false A B C)|]. split.
+  - intros ss. apply (transport_gap code_limits ss _ _ false A B C).
+  - intros a. reflexivity.
 Qed.
